@@ -7,7 +7,7 @@ namespace Usual.C09
 /-- `sizeof(struct SlabFrag)` -/
 def slabFragHdr : Nat := 16
 /-- `sizeof(struct Slab)` on LP64 -/
-def sizeofSlab : Nat := 136
+def sizeofSlab : Nat := 120
 
 structure Slab where
   hdr : Nat                    -- address of `struct Slab`
